@@ -10,6 +10,7 @@ import (
 	"fmt"
 	"io"
 	"net"
+	"sync"
 
 	hclog "github.com/hashicorp/go-hclog"
 	"github.com/hashicorp/go-plugin/internal/grpcmux"
@@ -60,6 +61,7 @@ type GRPCServer struct {
 	config      GRPCServerConfig
 	server      *grpc.Server
 	broker      *GRPCBroker
+	brokerLock  sync.Mutex
 	stdioServer *grpcStdioServer
 
 	logger hclog.Logger
@@ -120,21 +122,27 @@ func (s *GRPCServer) Stop() {
 	verifhook.Point("grpcserver.stop")
 	// Close the broker first: once the server has stopped, Serve returns and
 	// the plugin process may exit before anything after this point runs.
+	s.closeBroker()
+
+	s.server.Stop()
+}
+
+// closeBroker closes the broker once. Stop can run concurrently with itself:
+// every Shutdown request from the host ends up here.
+func (s *GRPCServer) closeBroker() {
+	s.brokerLock.Lock()
+	defer s.brokerLock.Unlock()
+
 	if s.broker != nil {
 		s.broker.Close()
 		s.broker = nil
 	}
-
-	s.server.Stop()
 }
 
 // GracefulStop calls GracefulStop on the underlying grpc.Server and Close on
 // the underlying grpc.Broker if present.
 func (s *GRPCServer) GracefulStop() {
-	if s.broker != nil {
-		s.broker.Close()
-		s.broker = nil
-	}
+	s.closeBroker()
 
 	s.server.GracefulStop()
 }
